@@ -219,6 +219,7 @@ func runC06(c *vk.Ctx) {
 			p.Croak = r.Chance(1, 2)
 			p.Catch = true
 			p.Lang = false
+			p.TailCall = true
 			return p
 		},
 		Hist:       func(r *vk.RNG, a *app.App) []string { return histWithClears(r, a, 6, 24) },
